@@ -7,20 +7,24 @@ package main
 // every *direct* write to such a variable outside variable initialisers and `init` functions:
 // assignments, op-assignments, ++/--, delete(v, …), and method calls with the variable as
 // pointer receiver (which may mutate it). Writes through an alias (p := universe["true"].ti;
-// p.setValue(…)) are NOT found — that needs a points-to analysis; the known finding
-// history-universe-bool is of that kind and is caught by the oracle of go/props/c30.
+// p.setValue(…)) are NOT found by that — it needs a points-to analysis. What is listed instead is
+// its type-based over-approximation: for every package-level variable, the struct types of the
+// package that can be reached from its type through pointers, maps, slices, arrays and fields
+// (pointerReach), and for each such struct type the fields that functions of the package assign
+// (fieldWrites: `x.f = …`, `x.f op= …`, `x.f++` with x of that type or a pointer to it, outside
+// init). A variable reaching a struct type with written fields holds values that a build can
+// mutate through a pointer obtained from it: state shared by all builds of the process. The known
+// finding history-universe-bool is of that kind (universe → scopeName → *typeInfo, written by
+// typeInfo.setValue and emitter.ti).
 
 import (
 	"fmt"
 	"go/ast"
 	"go/token"
 	"go/types"
-	"os"
 	"path/filepath"
 	"sort"
 	"strings"
-
-	"golang.org/x/tools/go/packages"
 )
 
 func init() {
@@ -49,21 +53,50 @@ func cgReaches(t types.Type, seen map[types.Type]bool) bool {
 	return false
 }
 
+// cgStructs collects the struct types declared in pkg of which t can reach an *addressable* value
+// other than the variable itself: behind a pointer or in a slice (through pointers, maps, slices,
+// arrays, channels and struct fields; not through interfaces). A struct held by value in a map
+// cannot be assigned to field-wise (`m[k].f = v` is not Go), so it does not count — what its
+// pointer fields reach does.
+func cgStructs(t types.Type, addr bool, pkg *types.Package, seen map[[2]any]bool, out map[string]bool) {
+	if seen[[2]any{t, addr}] {
+		return
+	}
+	seen[[2]any{t, addr}] = true
+	if n, ok := t.(*types.Named); ok && addr {
+		if _, isStruct := n.Underlying().(*types.Struct); isStruct && n.Obj().Pkg() == pkg {
+			out[n.Obj().Name()] = true
+		}
+	}
+	switch u := t.Underlying().(type) {
+	case *types.Pointer:
+		cgStructs(u.Elem(), true, pkg, seen, out)
+	case *types.Map:
+		cgStructs(u.Key(), false, pkg, seen, out)
+		cgStructs(u.Elem(), false, pkg, seen, out)
+	case *types.Slice:
+		cgStructs(u.Elem(), true, pkg, seen, out)
+	case *types.Array:
+		cgStructs(u.Elem(), addr, pkg, seen, out)
+	case *types.Chan:
+		cgStructs(u.Elem(), false, pkg, seen, out)
+	case *types.Struct:
+		for i := 0; i < u.NumFields(); i++ {
+			cgStructs(u.Field(i).Type(), addr, pkg, seen, out)
+		}
+	}
+}
+
 func genCompilerGlobals(repo string) (string, error) {
-	cfg := &packages.Config{
-		Mode: packages.NeedName | packages.NeedFiles | packages.NeedSyntax | packages.NeedTypes | packages.NeedTypesInfo | packages.NeedImports | packages.NeedDeps,
-		Dir:  repo,
-		Env:  append(os.Environ(), "GOFLAGS=-mod=mod", "GOPROXY=off"),
+	pkg, err := c30Load(repo)
+	if err != nil {
+		return "", err
 	}
-	pkgs, err := packages.Load(cfg, "./internal/compiler")
-	if err != nil || len(pkgs) != 1 || len(pkgs[0].Errors) > 0 {
-		return "", fmt.Errorf("shape not recognised: cannot load and type-check internal/compiler: %v", err)
-	}
-	pkg := pkgs[0]
 	qual := func(p *types.Package) string { return p.Name() }
 	type gvar struct {
 		name, file, typ string
 		refs            bool
+		structs         []string
 	}
 	var vars []gvar
 	isGlobal := map[types.Object]bool{}
@@ -81,7 +114,14 @@ func genCompilerGlobals(repo string) (string, error) {
 						continue
 					}
 					isGlobal[obj] = true
-					vars = append(vars, gvar{id.Name, file, types.TypeString(obj.Type(), qual), cgReaches(obj.Type(), map[types.Type]bool{})})
+					reached := map[string]bool{}
+					cgStructs(obj.Type(), false, pkg.Types, map[[2]any]bool{}, reached)
+					var rs []string
+					for n := range reached {
+						rs = append(rs, n)
+					}
+					sort.Strings(rs)
+					vars = append(vars, gvar{id.Name, file, types.TypeString(obj.Type(), qual), cgReaches(obj.Type(), map[types.Type]bool{}), rs})
 				}
 			}
 		}
@@ -160,6 +200,59 @@ func genCompilerGlobals(repo string) (string, error) {
 		}
 	}
 	sort.Strings(writes)
+	// field writes per struct type of the package
+	fieldWrites := map[string]map[string]bool{}
+	for _, f := range pkg.Syntax {
+		for _, d := range f.Decls {
+			fd, ok := d.(*ast.FuncDecl)
+			if !ok || fd.Body == nil || (fd.Name.Name == "init" && fd.Recv == nil) {
+				continue
+			}
+			fn := mrcFuncName(fd)
+			noteField := func(e ast.Expr) {
+				for {
+					if p, ok := e.(*ast.ParenExpr); ok {
+						e = p.X
+						continue
+					}
+					break
+				}
+				sel, ok := e.(*ast.SelectorExpr)
+				if !ok {
+					return
+				}
+				s := pkg.TypesInfo.Selections[sel]
+				if s == nil || s.Kind() != types.FieldVal {
+					return
+				}
+				t := s.Recv()
+				if p, ok := t.Underlying().(*types.Pointer); ok {
+					t = p.Elem()
+				}
+				n, ok := t.(*types.Named)
+				if !ok || n.Obj().Pkg() != pkg.Types {
+					return
+				}
+				if fieldWrites[n.Obj().Name()] == nil {
+					fieldWrites[n.Obj().Name()] = map[string]bool{}
+				}
+				fieldWrites[n.Obj().Name()][sel.Sel.Name+" "+fn] = true
+			}
+			ast.Inspect(fd.Body, func(n ast.Node) bool {
+				switch x := n.(type) {
+				case *ast.AssignStmt:
+					if x.Tok != token.DEFINE {
+						for _, l := range x.Lhs {
+							noteField(l)
+						}
+					}
+				case *ast.IncDecStmt:
+					noteField(x.X)
+				}
+				return true
+			})
+		}
+	}
 	var b strings.Builder
 	b.WriteString("/-! Package-level variables of /repo/internal/compiler (go/types) and the direct writes to them\noutside initialisers and init functions. See go/cmd/extract/gen_compilerglobals.go. -/\nnamespace ScriggoV.Gen.CompilerGlobals\n\n")
 	b.WriteString("structure Var where\n  name : String\n  file : String\n  typ : String\n  /-- the type can hold a pointer, map, slice, channel or function (not looking inside interfaces) -/\n  refs : Bool\n  deriving DecidableEq, Repr\n\n")
@@ -179,6 +272,41 @@ func genCompilerGlobals(repo string) (string, error) {
 		}
 		fmt.Fprintf(&b, "  %q%s\n", w, sep)
 	}
-	b.WriteString("]\n\nend ScriggoV.Gen.CompilerGlobals\n")
+	b.WriteString("]\n\n/-- for every package-level variable that reaches one: the struct types of the package reachable from\nits type behind a pointer or in a slice (through pointers, maps, slices, arrays and fields) whose fields\nsome function assigns -/\ndef pointerReach : List (String × List String) := [\n")
+	usedStructs := map[string]bool{}
+	var lines []string
+	for _, v := range vars {
+		var ws []string
+		for _, st := range v.structs {
+			if len(fieldWrites[st]) > 0 {
+				ws = append(ws, fmt.Sprintf("%q", st))
+				usedStructs[st] = true
+			}
+		}
+		if len(ws) > 0 {
+			lines = append(lines, fmt.Sprintf("  (%q, [%s])", v.name, strings.Join(ws, ", ")))
+		}
+	}
+	b.WriteString(strings.Join(lines, ",\n"))
+	b.WriteString("\n]\n\n/-- for each struct type above: `<field> <function>` for every assignment to a field of a value of\nthat type (or through a pointer to it) outside init functions -/\ndef fieldWrites : List (String × List String) := [\n")
+	var sts []string
+	for st := range usedStructs {
+		sts = append(sts, st)
+	}
+	sort.Strings(sts)
+	lines = nil
+	for _, st := range sts {
+		var ws []string
+		for w := range fieldWrites[st] {
+			ws = append(ws, w)
+		}
+		sort.Strings(ws)
+		for i := range ws {
+			ws[i] = fmt.Sprintf("%q", ws[i])
+		}
+		lines = append(lines, fmt.Sprintf("  (%q, [%s])", st, strings.Join(ws, ", ")))
+	}
+	b.WriteString(strings.Join(lines, ",\n"))
+	b.WriteString("\n]\n\nend ScriggoV.Gen.CompilerGlobals\n")
 	return b.String(), nil
 }
